@@ -49,6 +49,26 @@ def reader_keys(f, b):
                 k = const_of(fl, t, 1)
                 if k is not None:
                     keys[k] = m
+                elif bb["kind"] == "Closure" and F.op_local(t["args"][1]) is not None:
+                    # a local closure that is handed the key (`take_or_null("Filter")`): the keys are the constants at its call sites
+                    ps_ = sorted({a[1] for a in fl.origins(F.op_local(t["args"][1]), passthrough=("into", "from", "as_str", "deref")) if a[0] == "arg" and a[1] >= 2})
+                    for pb in [b] + f.closures_of(b["id"]):
+                        pfl = Flow(pb)
+                        for ci, ct in F.calls(pb):
+                            if (ct.get("resolved") or "") != bb["id"] or len(ct["args"]) < 2:
+                                continue
+                            tl = F.op_local(ct["args"][1])
+                            for d in pfl.defs.get(tl, []) if tl is not None else []:
+                                if d[0] == "assign" and d[2][0] == "aggregate" and d[2][1].get("k") == "tuple":
+                                    for p_ in ps_:
+                                        if p_ - 2 < len(d[2][2]):
+                                            o_ = d[2][2][p_ - 2]
+                                            c_ = F.const_str(o_)
+                                            if c_ is None and F.op_local(o_) is not None:
+                                                cs_ = [x[1]["str"] for x in pfl.origins(F.op_local(o_), passthrough=("into", "from", "as_str", "deref")) if x[0] == "const" and "str" in x[1]]
+                                                c_ = cs_[0] if len(cs_) == 1 else None
+                                            if c_ is not None:
+                                                keys[c_] = m
             elif m == "require":
                 k = const_of(fl, t, 2)
                 if k is not None:
@@ -635,9 +655,10 @@ def rule_name_tables(ctx, f):
              "which the reader builds that variant")
     from tables import str_arms, exclusive_regions, enum_switches, region_aggregates
     n = 0
-    for adt, reader_id in (("object::types::DestView", "object::types::Dest::from_array"),):
+    for adt, reader_id, wself in (("object::types::DestView", "object::types::Dest::from_array", "object::types::Dest"),
+                                  ("object::color::ColorSpace", "object::color::ColorSpace::from_primitive_depth", "object::color::ColorSpace")):
         rb = f.body(reader_id)
-        wb = f.impl_method("object::ObjectWrite", "object::types::Dest", "to_primitive")
+        wb = f.impl_method("object::ObjectWrite", wself, "to_primitive")
         if rb is None or wb is None or adt not in f.adts:
             ctx.lost("C15-ENUM-H", "%s reader / writer" % adt)
             continue
@@ -659,8 +680,16 @@ def rule_name_tables(ctx, f):
                     for st in wb["blocks"][r]["stmts"]:
                         if st[0] == "assign" and st[2][0] == "use" and st[2][1][0] == "const" and isinstance(st[2][1][1], dict) and "str" in st[2][1][1]:
                             wtab.setdefault(vn, set()).add(st[2][1][1]["str"])
+                    tw = wb["blocks"][r]["term"]
+                    if tw["k"] == "call" and last_seg(F.callee_name(tw)) in ("name", "from", "into", "new") :
+                        # `Primitive::name("CalRGB")` / `Name::from("..")`
+                        for a_ in tw["args"]:
+                            if a_[0] == "const" and isinstance(a_[1], dict) and "str" in a_[1]:
+                                wtab.setdefault(vn, set()).add(a_[1]["str"])
         ctx.floor("C15-ENUM-H", len(rtab), 5, "variants of %s the reader builds from a name" % adt.split("::")[-1])
         for vn in sorted(rtab):
+            if adt.endswith("ColorSpace") and not wtab.get(vn):
+                continue        # a variant the writer refuses (Separation / DeviceN: known findings of C15-VARIANTS) writes no name
             n += 1
             ctx.check(wtab.get(vn) == rtab[vn], "C15-ENUM-H", "%s::%s" % (adt.split("::")[-1], vn), "the writer emits %s for %s, the reader builds it from %s: the value read back is "
                       "another variant" % (sorted(wtab.get(vn, [])), vn, sorted(rtab[vn])), wb["span"], detail="%s <-> /%s" % (vn, "/".join(sorted(rtab[vn]))))
@@ -729,6 +758,28 @@ def rule_accessors(ctx, f):
         shared = [x for x in tgts[tg] if x != vn]
         ctx.check(built == want and not shared, "C15-TABLE-acc", "Font#subtype-%s" % vn, "a font with /Subtype /%s is read as FontData::%s%s: it is written back with "
                   "another /Subtype" % (vn, "/".join(sorted(built)) or "?", (" (arm shared with %s)" % ", ".join(shared)) if shared else ""), fb["span"], detail="/%s -> FontData::%s" % (vn, sorted(want)[0]))
+    # ... and the writer names the /Subtype after the variant it holds (the sibling table)
+    wb = f.impl_method("object::ObjectWrite", "font::Font", "to_primitive")
+    if wb is None:
+        ctx.lost("C15-TABLE-acc", "<Font as ObjectWrite>::to_primitive")
+        return
+    wcfg = CFG(wb)
+    dv = {v["vi"]: v["name"] for v in f.adts["font::FontData"]["variants"]}
+    nw = 0
+    for i2, pl2, arms2, other2 in enum_switches(wb, "font::FontData", f):
+        regs2 = exclusive_regions(wcfg, {dv[k]: tg for k, tg in arms2.items()})
+        rows = {}
+        for k, tg in arms2.items():
+            rows[dv[k]] = {st[2][1]["variant"] for r, st in region_aggregates(wb, regs2.get(dv[k], set()) | {tg}, "font::FontType")}
+        if not any(rows.values()):
+            continue            # the match that serialises the data, not the one that names the subtype
+        for vn, built in sorted(rows.items()):
+            if vn == "Other":
+                continue
+            nw += 1
+            ctx.check(built == {vn}, "C15-TABLE-acc", "Font#writes-subtype-%s" % vn, "a FontData::%s is written with /Subtype /%s: it is read back as another kind of font"
+                      % (vn, "/".join(sorted(built)) or "?"), wb["span"], detail="FontData::%s -> /Subtype /%s" % (vn, vn))
+    ctx.floor("C15-TABLE-acc", nw, 5, "variants of FontData the writer names a /Subtype for")
 
 
 def run(ctx):
